@@ -33,7 +33,7 @@ VERIF = os.path.dirname(os.path.dirname(os.path.abspath(__file__)))
 NSHARDS = int(os.environ.get("VERIF_SHARDS", "16"))
 # development aid for loaded machines: stretches the wall-clock safety nets (never the case counts)
 BUDGET_MULT = float(os.environ.get("VERIF_BUDGET_MULT", "1") or 1)
-THOROUGH_FACTOR = int(os.environ.get("VERIF_THOROUGH_FACTOR", "5") or 5)
+THOROUGH_FACTOR = int(os.environ.get("VERIF_THOROUGH_FACTOR", "3") or 3)
 
 
 # --------------------------------------------------------------------------- outcome
